@@ -2,6 +2,7 @@
 Sidecar contracts for tdda/rexpy/rexpy.py (C03 / C13 integer lemmas).
 """
 import z3
+from collections import OrderedDict
 
 from pyvc.contracts import contract, Contract, LoopSpec, REGISTRY
 from pyvc.sym import (T, TD, SObj, SBool, SInt, SStr, SText, SList, Sym, Unsupported, num_z)
@@ -413,3 +414,336 @@ contract(RX + 'ResultsSummary.remove', props=['C13'],
          params=dict(indexes=T.enum(*_INDEX_SETS), add_dot_star=T.const(False)), self_view=_summary_view,
          spec_env=dict(ENV, removed_ok=removed_ok), result=T.opaque,
          ensures=[('removes-exactly-those-indexes-from-all-three-lists', 'removed_ok(self, indexes)')])
+
+
+# ---------------------------------------------------------------------------
+# C18: rex_coverage and the Extractor's coverage methods
+#
+# re.compile / re.match enter as A-re: matches(pattern text, flags, string) is an
+# uninterpreted predicate.  The example store is two symbolic lists of any
+# length (strings, frequencies); the pattern list has an enumerated length
+# 0..3 (the loop over patterns carries no state but the result list).
+# ---------------------------------------------------------------------------
+from pyvc.ops import strz
+from pyvc.sym import StrS
+
+_MATCHES = z3.Function('re_match', StrS, z3.IntSort(), StrS, z3.BoolSort())
+_RE_UNICODE, _RE_DOTALL = 32, 16
+
+
+def _flatten_text(it, v):
+    """A structured text made of '%s' slots and concatenation, as one string value ('' parts vanish)."""
+    from pyvc.sym import str_cat
+    if not isinstance(v, SText):
+        return v
+    parts = []
+    for p in v.parts:
+        if isinstance(p, tuple) and p and p[0] == 'fmt':
+            fmt, args = p[1], p[2]
+            if fmt.replace('%s', '') != '' or fmt.count('%s') != len(args):
+                raise Unsupported('format %r in a pattern' % fmt)
+            parts.extend(args)
+        else:
+            parts.append(p)
+    parts = [x for x in parts if not (isinstance(x, str) and x == '')]
+    if not parts:
+        return ''
+    if not all(isinstance(x, (str, SStr)) for x in parts):
+        raise Unsupported('non-string part in a pattern')
+    r = parts[0]
+    for x in parts[1:]:
+        r = SStr(str_cat(strz(it, r), strz(it, x)))
+    return r
+
+
+def _re_module(it):
+    def compile_(it2, pattern, flags=0):
+        return SObj('regex', {'pattern': _flatten_text(it2, pattern), 'flags': flags, '__open__': False})
+
+    def match(it2, r, s, flags=0):
+        if isinstance(r, SObj) and r.cls == 'regex':
+            pat, fl = r.attrs['pattern'], r.attrs['flags']
+        else:
+            pat, fl = r, flags
+        flz = fl.z if isinstance(fl, SInt) else z3.IntVal(int(fl))
+        return SBool(_MATCHES(strz(it2, pat), flz, strz(it2, s)))
+
+    def unsupported(name):
+        def f(it2, *a, **k):
+            raise Unsupported('re.%s in a coverage function' % name)
+        return Builtin(f, 're.' + name)
+    return SObj('re-module', {'compile': Builtin(compile_, 're.compile'), 'match': Builtin(match, 're.match'),
+                              'search': unsupported('search'), 'fullmatch': unsupported('fullmatch'),
+                              'UNICODE': _RE_UNICODE, 'DOTALL': _RE_DOTALL, 'U': _RE_UNICODE, 'S': _RE_DOTALL,
+                              '__open__': False})
+
+
+def _examples_view(it, name):
+    strings = it.fresh(T.list(T.str), 'example_strings')
+    freqs = it.fresh(T.list(T.nat), 'example_freqs')
+    it.path.assume(strings.n == freqs.n)
+    return SObj('Examples', {'strings': strings, 'freqs': freqs, 'n_uniqs': SInt(strings.n),
+                             '__open__': False}, label=name)
+
+
+def _patterns(it, name):
+    k = it.path.choose([True] * 4)
+    out = []
+    for i in range(k):
+        p = it.fresh_str('pattern%d' % i)
+        out.append(p)
+    return out
+
+
+def _cov_entry(it, senv):
+    it.spec_env['re'] = _re_module(it)
+    it.spec_env['RE_FLAGS'] = _RE_UNICODE | _RE_DOTALL
+    it.structured_text = True
+
+
+@specfn
+def true_match_count(it, pattern, examples, dedup):
+    """Number of examples (repeats counted unless dedup) that re.match(compile(pattern, UNICODE|DOTALL), .) accepts."""
+    from pyvc.builtins import sum_symbolic
+    strings, freqs = examples.attrs['strings'], examples.attrs['freqs']
+    pz = strz(it, pattern)
+    fl = z3.IntVal(_RE_UNICODE | _RE_DOTALL)
+
+    def term(i):
+        w = z3.IntVal(1) if dedup is True else freqs.get(i).z
+        return SInt(z3.If(_MATCHES(pz, fl, strz(it, strings.get(i))), w, 0))
+    return sum_symbolic(it, SList(strings.n, term, T.int, 'list'))
+
+
+@specfn
+def anchored(it, patterns):
+    from pyvc.sym import str_startswith, str_endswith
+    conj = []
+    for p in patterns:
+        pz = strz(it, p)
+        conj.append(str_startswith(pz, it.strlit('^')))
+        conj.append(str_endswith(pz, it.strlit('$')))
+    return SBool(z3.And(*conj)) if conj else True
+
+
+contract(RX + 'rex_coverage', props=['C18'],
+         params=dict(patterns=T.custom(_patterns), examples=T.custom(_examples_view), dedup=T.union(T.const(False), T.const(True))),
+         on_entry=_cov_entry, spec_env=dict(ENV, true_match_count=true_match_count, anchored=anchored),
+         requires=[('expressions-are-anchored', 'anchored(patterns)')],
+         ensures=[('one-figure-per-expression', 'len(result) == len(patterns)'),
+                  ('each-figure-is-the-true-match-count',
+                   'all(result[i] == true_match_count(patterns[i], examples, dedup) for i in range(len(patterns)))')])
+
+
+# -- the example store and the Extractor's reporting methods (C18) --------------------------------------
+
+def _examples_self(it):
+    o = _examples_view(it, 'self')
+    o.attrs['__open__'] = True
+    o.repo_class = extract.load_module('tdda/rexpy/rexpy.py').classes['Examples']
+    return o
+
+
+@specfn
+def total_frequency(it, freqs):
+    from pyvc.builtins import sum_symbolic
+    return sum_symbolic(it, freqs)
+
+
+contract(RX + 'Examples.update', props=['C18'], params={}, self_view=_examples_self,
+         spec_env=dict(ENV, total_frequency=total_frequency),
+         ensures=[('distinct-count-is-the-number-of-stored-strings', 'self.n_uniqs == len(self.strings)'),
+                  ('example-count-is-the-sum-of-the-stored-frequencies', 'self.n_strings == total_frequency(self.freqs)')])
+
+
+def _reporting_extractor(it):
+    rc = extract.load_module('tdda/rexpy/rexpy.py').classes['Extractor']
+    ex = _examples_view(it, 'examples')
+    ex.attrs['n_strings'] = it.fresh(T.nat, 'n_strings')
+    ex.attrs['n_uniqs'] = it.fresh(T.nat, 'n_uniqs')
+    results = SObj('ResultsSummary', {'rex': it.fresh(T.list(T.str), 'rex'), '__open__': False})
+    o = SObj('Extractor', {'examples': ex, 'results': results, 'all_examples': _examples_view(it, 'all_examples')},
+             label='self')
+    o.repo_class = rc
+    return o
+
+
+def _record_call(name):
+    def eff(it, env):
+        it.ghost.setdefault('reporting_calls', []).append((name, dict(env)))
+        r = it.fresh_opaque(name + '_result')
+        it.ghost['reporting_result'] = r
+        return r
+    return eff
+
+
+for _n, _ps in (('rex_coverage', ['patterns', 'examples', 'dedup']),
+                ('rex_incremental_coverage', ['patterns', 'examples', 'sort_on_deduped', 'debug']),
+                ('rex_full_incremental_coverage', ['patterns', 'examples', 'sort_on_deduped', 'debug'])):
+    _c = Contract(RX + _n, params={p: None for p in _ps}, effects=_record_call(_n), result=T.none, assumed=True,
+                  name=_n + '(callee)', trusted_note='callee of the Extractor reporting methods: its own contract / bounded checks decide it')
+    _c.defaults = {'dedup': False, 'sort_on_deduped': False, 'debug': False}
+    REGISTRY[RX + _n + '#callee'] = _c
+
+
+@specfn
+def delegated(it, fn, self, flag, result):
+    calls = it.ghost.get('reporting_calls', [])
+    if len(calls) != 1:
+        return False
+    name, env = calls[0]
+    flagname = 'dedup' if fn == 'rex_coverage' else 'sort_on_deduped'
+    return (name == fn and env['patterns'] is self.attrs['results'].attrs['rex']
+            and env['examples'] is self.attrs['examples'] and env[flagname] is flag
+            and result is it.ghost.get('reporting_result'))
+
+
+class _ReportingContract(Contract):
+    def verify(self, registry=None, quick=False):
+        reg = dict(REGISTRY if registry is None else registry)
+        for n in ('rex_coverage', 'rex_incremental_coverage', 'rex_full_incremental_coverage'):
+            reg[RX + n] = REGISTRY[RX + n + '#callee']
+        return Contract.verify(self, reg, quick)
+
+
+for _m, _fn in (('coverage', 'rex_coverage'), ('incremental_coverage', 'rex_incremental_coverage'),
+                ('full_incremental_coverage', 'rex_full_incremental_coverage')):
+    _params = OrderedDict([('dedup', T.union(T.const(False), T.const(True)))])
+    if _m != 'coverage':
+        _params['debug'] = T.const(False)
+    _c = _ReportingContract(RX + 'Extractor.' + _m, props=['C18'], params=_params, self_view=_reporting_extractor,
+                            spec_env=dict(ENV, delegated=delegated),
+                            ensures=[('figures-are-computed-over-the-result-expressions-and-the-stored-examples',
+                                      'delegated(%r, self, dedup, result)' % _fn)])
+    REGISTRY[_c.ident] = _c
+
+contract(RX + 'Extractor.n_examples', props=['C18'], params=dict(dedup=T.union(T.const(False), T.const(True))),
+         self_view=_reporting_extractor, spec_env=ENV,
+         ensures=[('number-of-examples-stored', 'result == (self.examples.n_uniqs if dedup else self.examples.n_strings)')])
+
+
+# ---------------------------------------------------------------------------
+# C14: Extractor.extract brackets everything it does between PRNGState(seed)
+# and restore(), however it ends (normal return, early return, exception in
+# any callee), and draws from the global generator only inside the bracket.
+#
+# The callees (batch_extract, check_fn, clean, add_warnings, find_bad_patterns,
+# results.remove, convert_rex_to_dialect, examples.update, random.sample) are
+# abstracted: each may return an arbitrary value or raise.  PRNGState itself is
+# replaced by a ghost that counts save / restore events; its own behaviour is
+# proved separately (PRNGState.__init__ / restore above).
+# ---------------------------------------------------------------------------
+
+def _prng(it):
+    return it.ghost.setdefault('prng', {'saved': 0, 'restored': 0, 'outside': False, 'seed': Ellipsis})
+
+
+def _may_raise(it, name):
+    if it.path.choose([True, True]) == 1:
+        raise PyExc('CalleeError', 'exception in ' + name)
+
+
+def _extract_self(it):
+    rc = extract.load_module('tdda/rexpy/rexpy.py').classes['Extractor']
+
+    def liststub(name):
+        member = z3.Function('member_of_' + name.replace('.', '_'), StrS, z3.BoolSort())
+        from pyvc.sym import SSet
+        o = SObj('list', {'__open__': False,
+                          '__as_set__': SSet(lambda x: member(strz(it, x)), None, T.str)}, label=name)
+        o.methods['extend'] = Builtin(lambda it2, self, other: None, 'list.extend')
+        return o
+
+    def examples_obj(it2, name, n_uniqs=None):
+        strings = it2.fresh(T.list(T.str), name + '.strings')
+        freqs = it2.fresh(T.list(T.nat), name + '.freqs')
+        return SObj('Examples', {'strings': strings, 'freqs': freqs, '__open__': False}, label=name)
+
+    ex = SObj('Examples', {'strings': liststub('examples.strings'), 'freqs': liststub('examples.freqs'),
+                           'n_uniqs': it.fresh(T.nat, 'n_uniqs'), '__open__': False}, label='examples')
+
+    def update(it2, self):
+        _may_raise(it2, 'examples.update')
+        return None
+    ex.methods['update'] = Builtin(update, 'Examples.update')
+    results = SObj('ResultsSummary', {'rex': it.fresh(T.list(T.str), 'rex'), '__open__': False}, label='results')
+
+    def remove(it2, self, idx):
+        _may_raise(it2, 'results.remove')
+        return None
+    results.methods['remove'] = Builtin(remove, 'ResultsSummary.remove')
+    it.ghost['results_stub'] = results
+    size = SObj('Size', {'max_sampled_attempts': it.fresh(T.nat, 'max_sampled_attempts'),
+                         'do_all_exceptions': it.fresh(T.nat, 'do_all_exceptions'), '__open__': False})
+
+    def check_fn(it2, rexes, maxN):
+        _may_raise(it2, 'check_fn')
+        return (examples_obj(it2, 'failures'), it2.fresh_opaque('re_freqs'))
+    o = SObj('Extractor', {'seed': it.fresh(T.union(T.none, T.int), 'seed'), 'size': size, 'examples': ex,
+                           'verbose': False, 'results': None, 'check_fn': Builtin(check_fn, 'check_fn')},
+             label='self')
+    o.repo_class = rc
+
+    def method(name, ret):
+        def m(it2, self, *a):
+            _may_raise(it2, name)
+            return ret(it2)
+        o.methods[name] = Builtin(m, 'Extractor.' + name)
+    method('batch_extract', lambda it2: results)
+    method('clean', lambda it2: examples_obj(it2, 'cleaned'))
+    method('add_warnings', lambda it2: None)
+    method('find_bad_patterns', lambda it2: it2.fresh_opaque('bad_patterns'))
+    method('convert_rex_to_dialect', lambda it2: None)
+    return o
+
+
+def _extract_entry(it, senv):
+    g = _prng(it)
+
+    def ctor(it2, seed=None):
+        g['saved'] += 1
+        g['seed'] = seed
+        if g['restored']:
+            g['outside'] = True
+        st = SObj('PRNGState', {'__open__': False})
+
+        def restore(it3, self):
+            if g['saved'] != 1:
+                g['outside'] = True
+            g['restored'] += 1
+            return None
+        st.methods['restore'] = Builtin(restore, 'PRNGState.restore')
+        return st
+    it.spec_env['PRNGState'] = Builtin(ctor, 'PRNGState')
+
+    def sample(it2, population, k):
+        if not (g['saved'] == 1 and g['restored'] == 0):
+            g['outside'] = True
+        g['draws'] = g.get('draws', 0) + 1
+        _may_raise(it2, 'random.sample')
+        return it2.fresh(T.list(T.opaque), 'sampled') if False else population
+    it.spec_env['random'] = SObj('random-module', {'sample': Builtin(sample, 'random.sample'), '__open__': False})
+
+
+@specfn
+def prng_bracket_open(it):
+    g = _prng(it)
+    return g['saved'] == 1 and g['restored'] == 0 and not g['outside']
+
+
+@specfn
+def prng_bracket_closed(it, self):
+    g = _prng(it)
+    return g['saved'] == 1 and g['restored'] == 1 and not g['outside'] and g['seed'] is self.attrs['seed']
+
+
+contract(RX + 'Extractor.extract', props=['C14'], params={}, self_view=_extract_self, on_entry=_extract_entry,
+         spec_env=dict(ENV, prng_bracket_open=prng_bracket_open, prng_bracket_closed=prng_bracket_closed),
+         allow_raise={'CalleeError': 'True'},
+         loops={1: LoopSpec([('generator-state-saved-and-not-yet-restored', 'prng_bracket_open()'),
+                             ('attempt-positive', 'attempt >= 1')],
+                            havoc={'attempt': T.int, 're_freqs': T.opaque, 'maxN': 'unbound', 'failex': 'unbound',
+                                   'z': 'unbound', 'sampled': 'unbound', 'strings': 'unbound',
+                                   'self.examples': 'keep',
+                                   'self.results': T.custom(lambda it, name: it.ghost['results_stub'])})},
+         always=[('global-generator-saved-once-restored-once-and-used-only-in-between', 'prng_bracket_closed(self)')])
